@@ -20,6 +20,41 @@ except ImportError:  # pragma: no cover
 from .version import Version, VER_3_0, VER_2_0
 
 
+class _ColumnDict(SortableDict):
+    '''
+    The columns of a grid.  Metadata of a column that is stored as a plain
+    dict (or as a metadata object that is not bound to a grid yet) is kept
+    in a metadata object that applies the version rules of the grid, so that
+    what is stored into it later is checked like everything else.
+    '''
+
+    def __init__(self, grid):
+        self._grid = grid
+        super(_ColumnDict, self).__init__(
+            validate_fn=grid._detect_or_validate_column)
+
+    def __repr__(self):
+        return '%s{%s}' % (SortableDict.__name__,
+                           ', '.join(['%r=%r' % (k, v)
+                                      for k, v in list(self.items())]))
+
+    def add_item(self, key, value, *args, **kwargs):
+        validate_fn = self._grid._detect_or_validate
+        if isinstance(value, MetadataObject) and \
+                (value._validate_fn is None):
+            # Not bound to a grid yet: bind it to this one
+            self._grid._detect_or_validate_column(value)
+            value._validate_fn = validate_fn
+        elif isinstance(value, MetadataObject) and \
+                (value._validate_fn == validate_fn):
+            pass
+        elif isinstance(value, dict) or isinstance(value, SortableDict):
+            mo = MetadataObject(validate_fn=validate_fn)
+            mo.extend(value)
+            value = mo
+        return super(_ColumnDict, self).add_item(key, value, *args, **kwargs)
+
+
 class Grid(col.MutableSequence):
     '''
     A grid is basically a series of tabular records.  The grid has a header
@@ -44,7 +79,7 @@ class Grid(col.MutableSequence):
         self.metadata = MetadataObject(validate_fn=self._detect_or_validate)
 
         # The columns
-        self.column = SortableDict(validate_fn=self._detect_or_validate_column)
+        self.column = _ColumnDict(self)
 
         # Rows
         self._row = []
